@@ -343,7 +343,8 @@ Section Exec.
                   match g_get (i_conns m) k with
                   | None => walk w i args r
                   | Some c =>
-                      if c_blocked c then walk w i args r else
+                      (* blocked, or disconnected earlier in this very emission (only marked: the entry goes when the emission ends) *)
+                      if c_blocked c || c_tbd c then walk w i args r else
                       match fire w i k c args with
                       | (w', None) => walk w' i args r
                       | (w', Some e) => (w', Some e)
